@@ -429,6 +429,20 @@ fn real_kkbw(pools: &mut Pools, rows: &[KRow], size: u64, off: u64, mode: Mode, 
         Ok(collect_mode(&p, build_kts(&p, rows, src).key_by_window(size, off), mode)?.iter().map(|((k, w), v)| ((*k, w2(w)), *v)).collect())
     }))
 }
+/// round 5: value steps AROUND the keyed windowing step, as written: `map_values(v*2)` on the timestamped value before
+/// it, `filter_values(v % 4 == 0)` and `map_values(v+1)` after it. The windowing step is a plain `map` (not movable):
+/// a windowing operator that claimed the value-only capability flags would be sorted among them by cost hint.
+fn real_kkbwv(pools: &mut Pools, rows: &[KRow], size: u64, off: u64, mode: Mode, src: KSrc) -> Out<Vec<KWRow>> {
+    Out::from(in_mode(pools, mode, move || -> Result<Vec<KWRow>, String> {
+        let p = Pipeline::default();
+        let c = build_kts(&p, rows, src)
+            .map_values(|e: &Timestamped<i64>| Timestamped::new(e.ts, e.value.wrapping_mul(2)))
+            .key_by_window(size, off)
+            .filter_values(|v: &i64| v % 4 == 0)
+            .map_values(|v: &i64| v.wrapping_add(1));
+        Ok(collect_mode(&p, c, mode)?.iter().map(|((k, w), v)| ((*k, w2(w)), *v)).collect())
+    }))
+}
 fn real_gbkw(pools: &mut Pools, rows: &[KRow], size: u64, off: u64, mode: Mode, src: KSrc) -> Out<Vec<KWGroup>> {
     Out::from(in_mode(pools, mode, move || -> Result<Vec<KWGroup>, String> {
         let p = Pipeline::default();
@@ -664,6 +678,31 @@ fn one_keyed(cx: &mut Ctx, pools: &mut Pools, rows: &[KRow], size: u64, off: u64
             }
         }
     }
+    // ---- value steps around the keyed windowing step (as written)
+    {
+        let r = real_kkbwv(pools, rows, size, off, mode, src);
+        if !ck_environment_failure(cx, mode, &r) {
+            let ans = match &r {
+                Out::Ok(out) => format!("OK {}", join_or_dash(out.iter().map(|((k, (s, e)), v)| format!("{k}@{s}-{e}:{v}")).collect())),
+                o => fail_ans(o),
+            };
+            let i = cx.case(format!("WGROUP kkbwv {size} {off} {} {} {}", mode.enc(), src.enc(), enc_krows(rows)), ans, rows.len() >= 2 && r.is_ok());
+            cx.count(&format!("wgroup:kkbwv:{}", r.tag()));
+            fail_oracle(cx, i, "kkbwv", &r, repr, size);
+            if let Out::Ok(out) = &r {
+                // independent of the model: the rows that survive, in input order, with their own windows
+                let want: Vec<(i64, i64)> = rows.iter().filter(|r| r.2.wrapping_mul(2) % 4 == 0).map(|r| (r.0, r.2.wrapping_mul(2).wrapping_add(1))).collect();
+                let got: Vec<(i64, i64)> = out.iter().map(|((k, _), v)| (*k, *v)).collect();
+                if got != want { cx.oracle_fail(i, "kkbwv-value-steps-not-as-written", format!("want {want:?}, got {got:?}")); }
+                let ts: Vec<u64> = rows.iter().filter(|r| r.2.wrapping_mul(2) % 4 == 0).map(|r| r.1).collect();
+                if ts.len() == out.len() {
+                    for (j, (((_, w), _), t)) in out.iter().zip(ts.iter()).enumerate() {
+                        if let Err(why) = window_ok(*w, *t, size, off) { cx.oracle_fail(i, &format!("kkbwv-window-wrong:{why}"), format!("row {j}: ts {t} got [{},{})", w.0, w.1)); break; }
+                    }
+                }
+            }
+        }
+    }
     // ---- group_by_key_and_window
     let r = real_gbkw(pools, rows, size, off, mode, src);
     if ck_environment_failure(cx, mode, &r) { return seq_ref.unwrap_or("").to_string(); }
@@ -781,6 +820,21 @@ fn wgroup_all_modes(cx: &mut Ctx, pools: &mut Pools, krows: &[KRow], size: u64, 
             let big = g.iter().map(|x| x.1.len()).max().unwrap_or(0);
             cx.count(&format!("wgroup:largest-group={}", match big { 0 => "0", 1 => "1", 2..=8 => "2-8", 9..=63 => "9-63", 64..=127 => "64-127", _ => "128+" }));
             cx.count(&format!("wgroup:windows={}", match g.len() { 0 => "0", 1 => "1", 2..=8 => "2-8", 9..=49 => "9-49", _ => "50+" }));
+        }
+    }
+}
+
+/// round 5, for C03's census ("no helper builder inserts a movable operator"): the keyed windowing step with value steps
+/// around it, on two fixed inputs, sequentially and with three partitions — gives C03 a concrete failing input
+/// (`WGROUP kkbwv`) when a windowing operator starts claiming the planner's reorder contract.
+pub fn windowing_neighbourhood_cases(cx: &mut Ctx) {
+    let mut pools = Pools::new();
+    for (krows, size, off) in [
+        (vec![(1i64, 7u64, 70i64), (1, 27, 71), (2, 12, 72), (1, 8, 73)], 10u64, 25u64),
+        (vec![(0, 100, 2), (1, 105, 4), (0, 131, 5), (1, 149, 6), (0, 150, 8)], 50, 0),
+    ] {
+        for mode in [Mode::Seq, Mode::Par(2, Some(3))] {
+            for src in [KSrc::D, KSrc::K] { one_keyed(cx, &mut pools, &krows, size, off, mode, src, None); }
         }
     }
 }
